@@ -242,6 +242,13 @@ def r6(ctx):
     ctx.floor("runners", n, 2)
 
 
+def r7(ctx):
+    """a recorded dataset is replayed through ReconnectingStream::with_error_handler: a recoverable error item is skipped,
+    never the end of the feed (= C12.R4)"""
+    from rules import C12
+    C12.r4(ctx)
+
+
 RULES = [
     ("R6", "the non-audited runners process every feed item in order until a terminal audit / end of feed", r6),
     ("R1", "drain before shutdown: Shutdown sent only after the market forwarder completed; engine awaited afterwards", r1),
@@ -249,4 +256,5 @@ RULES = [
     ("R3", "MarketDataInMemory::stream yields events[i] for i in 0..len in order", r3),
     ("R4", "market stream forwarded into the same feed the engine runner consumes", r4),
     ("R5", "shared constants are handed out as Arc clones and never mutated", r5),
+    ("R7", "recorded streams: the error handler skips error items, it does not end the feed (= C12.R4)", r7),
 ]
